@@ -1,7 +1,7 @@
 // c13: totality of every function fq adds to jq (DESIGN section 5, C13).
 //
 //	c13 inventory <out.json>                                   functions fq registers, read from the running program
-//	c13 run <jobs.ndjson> <results.ndjson> <nworkers> <memKB> <perJobSec>
+//	c13 run <jobs.ndjson> <results.ndjson> <nworkers> <memKB> <perJobSec> [defer]
 //	c13 eval1 <expr>                                           (self-checks) one in-process invocation, prints the marker value
 //	c13 worker                                                 (internal) isolated worker, see kit.ServeWorker
 //
@@ -134,6 +134,8 @@ type Job struct {
 	Lines []string          `json:"lines"`
 	Files map[string]string `json:"files"`
 	Repl  bool              `json:"repl"` // pass -i
+	// parent only: this call already stalled once in an earlier run; skip the pool and go straight to the solitary re-runs
+	Confirm bool `json:"confirm"`
 }
 
 type Res struct {
@@ -258,7 +260,9 @@ func classify(r kit.PoolResult) (string, string, Res) {
 	}
 }
 
-func runAll(jobsPath, outPath string, n int, memKB int64, sec int) {
+// deferStalls: report a first stall as outcome "stall" without the solitary re-runs (the caller hands the job to
+// its next run with confirm = true, so that the re-runs overlap useful work)
+func runAll(jobsPath, outPath string, n int, memKB int64, sec int, deferStalls bool) {
 	var jobs []json.RawMessage
 	kit.Cases(jobsPath, func(_ int, raw []byte) { jobs = append(jobs, raw) })
 	self, _ := os.Executable()
@@ -323,8 +327,26 @@ func runAll(jobsPath, outPath string, n int, memKB int64, sec int) {
 			}
 		})
 	}
-	kit.RunPool(self, []string{"worker"}, jobs, n, memKB, per, func(r kit.PoolResult) {
+	var poolJobs []json.RawMessage
+	var poolIDs []int
+	for id, raw := range jobs {
+		var j Job
+		kit.Unmarshal(raw, &j)
+		if j.Confirm {
+			recs[id] = rec{Outcome: "hang", Stalls: 0}
+			wg.Add(1)
+			go confirm(id)
+			continue
+		}
+		poolJobs = append(poolJobs, raw)
+		poolIDs = append(poolIDs, id)
+	}
+	kit.RunPool(self, []string{"worker"}, poolJobs, n, memKB, per, func(r kit.PoolResult) {
+		r.ID = poolIDs[r.ID]
 		oc, msg, res := classify(r)
+		if oc == "hang" && deferStalls {
+			oc = "stall"
+		}
 		mu.Lock()
 		recs[r.ID] = rec{Outcome: oc, Msg: cut(msg, 6000), Ms: res.Ms}
 		mu.Unlock()
@@ -376,7 +398,7 @@ func main() {
 		}
 		fmt.Println(string(res.Marker))
 	case "run":
-		runAll(os.Args[2], os.Args[3], kit.Atoi(os.Args[4]), int64(kit.Atoi(os.Args[5])), kit.Atoi(os.Args[6]))
+		runAll(os.Args[2], os.Args[3], kit.Atoi(os.Args[4]), int64(kit.Atoi(os.Args[5])), kit.Atoi(os.Args[6]), len(os.Args) > 7 && os.Args[7] == "defer")
 	default:
 		kit.Fatalf("unknown mode %s", os.Args[1])
 	}
